@@ -217,6 +217,18 @@ func (p *partA) caseA(sc scale, n int64, buf int, dat []byte, recs []rec, rng *r
 			return
 		}
 	}
+	// the independent layout model against the real shard files, every byte
+	for x := int64(0); x < n; x++ {
+		sh, o := layout(n, L, S, x)
+		if o >= int64(len(shards[sh])) || shards[sh][o] != dat[x] {
+			r.Violation(lib.Sig{"op": "encode", "class": "shard-layout-differs-from-model", "scale": scs}, detail(map[string]interface{}{"x": x, "shard": sh, "shard_off": o}))
+			break
+		}
+	}
+	if int64(len(shards[0])) != shardSizeFor(n, L, S) {
+		r.Violation(lib.Sig{"op": "encode", "class": "shard-size-differs-from-model", "scale": scs}, detail(nil))
+	}
+	r.Count("A_model_bytes_checked", n)
 	bad := 0
 	check := func(off, size int64, kind string) {
 		if size <= 0 || off < 0 || off+size > n {
@@ -239,7 +251,7 @@ func (p *partA) caseA(sc scale, n int64, buf int, dat []byte, recs []rec, rng *r
 	// 1. the whole file in one read, and every needle record inside the prefix
 	check(0, n, "whole")
 	for _, rc := range recs {
-		if rc.Off+rc.Len > n {
+		if rc.Off+rc.Len > n || bad > 3 {
 			break
 		}
 		check(rc.Off, rc.Len, "needle")
@@ -432,6 +444,118 @@ func runPartA(r *lib.Run) {
 			}
 		}
 		r.Note(fmt.Sprintf("A_scale_%d_%d", sc.L, sc.S), fmt.Sprintf("sizes 1..%d step %d (+all sizes within 1 of a row boundary and all sizes of the two suspicious row classes), %d subsets at %d sizes", maxN, step, len(fullSubsets), nFull))
+	}
+}
+
+// layout is the encoder's shard layout written down independently: where byte x of a
+// .dat of n bytes lives (large rows while remaining > 10*L, then small rows). Part A
+// checks this model against the real shard files byte by byte; part C uses it to judge
+// the real LocateData at production constants, where no 10 GiB file can be afforded.
+func layout(n, L, S, x int64) (shard int, off int64) {
+	nLarge := (n - 1) / (10 * L)
+	if x < nLarge*10*L {
+		row := x / (10 * L)
+		return int((x % (10 * L)) / L), row*L + x%L
+	}
+	y := x - nLarge*10*L
+	row := y / (10 * S)
+	return int((y % (10 * S)) / S), nLarge*L + row*S + y%S
+}
+
+func shardSizeFor(n, L, S int64) int64 {
+	nLarge, nSmall, _ := rowClass(n, L, S)
+	return nLarge*L + nSmall*S
+}
+
+type seg struct {
+	Shard     int
+	Off, Size int64
+}
+
+// modelSegments splits [off, off+size) into maximal runs that are contiguous in one shard.
+func modelSegments(n, L, S, off, size int64) []seg {
+	var out []seg
+	for size > 0 {
+		sh, o := layout(n, L, S, off)
+		nLarge := (n - 1) / (10 * L)
+		bl := S
+		if off < nLarge*10*L {
+			bl = L
+		}
+		room := bl - o%bl
+		if off >= nLarge*10*L {
+			room = S - (o-nLarge*L)%S
+		}
+		if room > size {
+			room = size
+		}
+		out = append(out, seg{sh, o, room})
+		off += room
+		size -= room
+	}
+	return out
+}
+
+// ---------------------------------------------------------------- part C
+
+func runPartC(r *lib.Run) {
+	const L, S = int64(ec.ErasureCodingLargeBlockSize), int64(ec.ErasureCodingSmallBlockSize)
+	rng := r.SubRng("c06-C")
+	GiB := int64(1) << 30
+	var sizes []int64
+	for k := int64(1); k <= 3; k++ {
+		b := k * 10 * GiB
+		for _, d := range []int64{-30 * MiB, -20*MiB - 8, -20 * MiB, -20*MiB + 8, -15 * MiB, -10*MiB - 8, -10 * MiB, -10*MiB + 8, -5 * MiB, -8, 0, 8, 5 * MiB, 10 * MiB, 10*MiB + 8, 3 * GiB} {
+			sizes = append(sizes, b+d)
+		}
+	}
+	for _, d := range []int64{8, 1 * MiB, 10 * MiB, 10*MiB + 8, 25 * MiB, 5 * GiB} {
+		sizes = append(sizes, d)
+	}
+	for i := 0; i < r.Pick(20, 300); i++ {
+		sizes = append(sizes, 8*(1+rng.Int63n(32*GiB/8-1)))
+	}
+	for _, n := range sizes {
+		nLarge, nSmall, class := rowClass(n, L, S)
+		shardSize := shardSizeFor(n, L, S)
+		r.Case(map[string]interface{}{"part": "C", "n": n})
+		r.Count("C_sizes", 1)
+		r.Count("C_sizes_"+class, 1)
+		var offs []int64
+		for _, b := range []int64{0, nLarge * 10 * L, nLarge*10*L + 10*S, n - 1, n - 10*S, n / 2, L, 10 * L, 5*L + 3*S} {
+			for _, d := range []int64{-1, 0, 1, -S, S} {
+				offs = append(offs, b+d)
+			}
+		}
+		for i := 0; i < 10; i++ {
+			offs = append(offs, rng.Int63n(n))
+		}
+		bad := 0
+		for _, off := range offs {
+			for _, size := range []int64{1, 32, S, S + 1, 3*S + 5, 11 * S} {
+				if off < 0 || off+size > n {
+					continue
+				}
+				ivs := ec.LocateData(L, S, ec.DataShardsCount*shardSize, off, types.Size(size))
+				want := modelSegments(n, L, S, off, size)
+				r.Eval(1)
+				ok := len(ivs) == len(want)
+				var got []seg
+				for _, iv := range ivs {
+					id, o := iv.ToShardIdAndOffset(L, S)
+					got = append(got, seg{int(id), o, int64(iv.Size)})
+				}
+				for i := 0; ok && i < len(want); i++ {
+					ok = got[i] == want[i]
+				}
+				if !ok && bad < 2 {
+					bad++
+					r.Violation(lib.Sig{"op": "locate", "class": "intervals-differ-from-encoder-layout", "small_rows": class, "scale": "production"},
+						map[string]interface{}{"part": "C", "n": n, "large_rows": nLarge, "small_rows": nSmall, "shard_size": shardSize, "off": off, "size": size, "got": got, "want": want})
+				}
+			}
+		}
+		r.Nontrivial(fmt.Sprintf("C/%d", n))
 	}
 }
 
@@ -807,7 +931,6 @@ func main() {
 	if r.Replay != "" {
 		var d struct {
 			Part string  `json:"part"`
-			L, S int64   `json:"-"`
 			N    int64   `json:"n"`
 			Buf  int     `json:"buf"`
 			LL   int64   `json:"L"`
@@ -822,6 +945,8 @@ func main() {
 			dat, recs := buildVolume(r, rng, 2*10*sc.L+3*10*sc.S, int(sc.S*4))
 			p := &partA{r: r, dir: r.SubDir("partA")}
 			p.caseA(sc, d.N, d.Buf, dat, recs, rng, allSubsets(2), true)
+		} else if d.Part == "C" {
+			runPartC(r)
 		} else {
 			// part B volumes depend on the position in the seeded stream: rerun the whole part
 			runPartB(r)
@@ -831,6 +956,7 @@ func main() {
 	}
 
 	runPartA(r)
+	runPartC(r)
 	runPartB(r)
 	if r.Counter("A_ranges_needle") == 0 || r.Counter("A_ranges_stride") == 0 || r.Counter("B_reads_live") == 0 || r.Counter("B_decoded_bytes") == 0 {
 		r.Inconclusive("a part of the check observed nothing (needle ranges / stride ranges / EC reads / decode)")
